@@ -2178,21 +2178,30 @@ def eqn2_helpers(e, bitslice=False, widening=False):
             c[i1 : i2 + 1] = e.l[i1 : i2 + 1]
             return c.simplify()
         elif bitslice and e.op.symbol in (OP_AND, OP_OR, OP_XOR):
-            return composer(
+            res = composer(
                 [e.op(e.l[i : i + 1], e.r[i : i + 1]) for i in range(e.size)]
             )
+            if res._is_cmp:
+                res.sf = e.sf
+            return res
         # if e:= (l [>> <<] r) with r >= size then e:= 0
         elif e.op.symbol in (OP_LSL, OP_LSR) and not (0 < e.r.value < e.l.size):
             return cst(0, e.size)
         elif bitslice and e.op.symbol == OP_LSL:
-            return composer(
+            res = composer(
                 [bit0] * e.r.value
                 + [e.l[i : i + 1] for i in range(0, e.size - e.r.value)]
             )
+            if res._is_cmp:
+                res.sf = e.sf
+            return res
         elif bitslice and e.op.symbol == OP_LSR:
-            return composer(
+            res = composer(
                 [e.l[i : i + 1] for i in range(e.r.value, e.size)] + [bit0] * e.r.value
             )
+            if res._is_cmp:
+                res.sf = e.sf
+            return res
         # if e:= (l [>> <<] r) then e:= l[i1:i2]
         elif e.op.symbol in (OP_LSL, OP_LSR):
             c = comp(e.l.size)
